@@ -88,9 +88,27 @@ def run(cfg):
         if not ok:
             R.violation(rid, c, loc, msg, detail)
     fields = {n: t for n, t, _ in lib.fields(SC)}
-    wprev = int_type(fields.get('mPrevMillis'))
+    # the millisecond reference: the member of SystemClock that is not the seconds counter, the last-sync time or the flag - an
+    # unsigned 16-bit integer, directly or as the single integer member of a small value type wrapped around it
+    def width_of(t, depth=0):
+        it = int_type(t)
+        if it is not None or depth > 2:
+            return it
+        q = (t or '').replace('const ', '').replace('mutable ', '').strip()
+        for cand in (q, SC + '::' + q.split('::')[-1]):
+            try:
+                inner = [int_type(t2) or width_of(t2, depth + 1) for _n2, t2, _x2 in lib.fields(cand)]
+            except Exception:
+                continue
+            ints = [w for w in inner if w is not None]
+            return ints[0] if len(inner) == 1 and ints else ((16, False) if any(w == (16, False) for w in ints) and len([w for w in ints if w[0] < 32]) == 1 else None)
+        return None
+    refs = [n for n, t in fields.items() if '*' not in (t or '') and n not in ('mEpochSeconds', 'mLastSyncTime', 'mIsInit') and width_of(t) is not None
+            and width_of(t)[0] < 32]
+    wprev = width_of(fields[refs[0]]) if len(refs) == 1 else None
     ob('R2', SC + '::mPrevMillis', 'src/ace_time/clock/SystemClock.h', wprev is not None and not wprev[1] and wprev[0] == 16,
-       'mPrevMillis is %s: the 64,536 ms polling bound of the statement assumes an unsigned 16-bit reference' % fields.get('mPrevMillis'))
+       'the millisecond reference (%s) is %s: the 64,536 ms polling bound of the statement assumes an unsigned 16-bit reference' % (
+           ', '.join(refs) or 'no member narrower than 32 bits', ', '.join(fields[n_] or '?' for n_ in refs) or '-'))
     inv = lib.const('ace_time::clock::Clock::kInvalidSeconds')
     g = lib.fn(SC + '::getNow')
     sy = lib.fn(SC + '::syncNow')
@@ -104,12 +122,6 @@ def run(cfg):
                 init_vals[n_] = lib.fold_node(inner[-1])
             except Exception:
                 pass
-    c_ = SC + '::mEpochSeconds:initial'
-    R.instance('R4', c_, sy.loc, 'initial values %r' % init_vals)
-    if init_vals.get('mEpochSeconds') != inv or init_vals.get('mIsInit') not in (0, False):
-        R.violation('R4', c_, sy.loc, 'a fresh clock starts with mEpochSeconds = %r, mIsInit = %r (expected the invalid sentinel %d and false): a first '
-                    'syncNow(%r) then looks like "the second did not change" and the clock, although set, keeps reporting the sentinel'
-                    % (init_vals.get('mEpochSeconds'), init_vals.get('mIsInit'), inv, init_vals.get('mEpochSeconds')))
     clock_scenarios(R, lib, ob, init_vals, inv, g, sy, sn)
     # R5 monotone writes
     okm, whym = True, ''
@@ -132,7 +144,12 @@ def run(cfg):
                     inc = _increment(s)
                     if not (inc is not None and inc > 0):
                         okm, whym = False, '%s writes mEpochSeconds with %s %s at %s' % (f.name, s.a[2], show(s.a[1]), s.loc)
-    ob('R5', SC + '::mEpochSeconds', 'src/ace_time/clock/SystemClock.h', okm and n >= 1, whym or 'no increment of mEpochSeconds found')
+    if 'mEpochSeconds' not in fields and n == 0:
+        # the seconds counter is not a direct member any more (it lives in a member of class type): that readings never go back is
+        # decided along the schedules of R1
+        R.instance('R5', SC + '::mEpochSeconds', 'src/ace_time/clock/SystemClock.h', 'no member mEpochSeconds: monotone readings are decided by R1')
+    else:
+        ob('R5', SC + '::mEpochSeconds', 'src/ace_time/clock/SystemClock.h', okm and n >= 1, whym or 'no increment of mEpochSeconds found')
     return R
 
 
@@ -165,12 +182,26 @@ def clock_scenarios(R, lib, ob, init_vals, inv, g, sy, sn):
             'ace_time::clock::Clock::setNow': lambda ev, recv, args: log.append((recv.oid if isinstance(recv, AObj) else recv, args[0])),
             'ace_time::clock::Clock::getNow': lambda ev, recv, args: 12345}
 
+    from .aeval import freeze
+    from .cxx import Lowerer
+    from .ir import E
+
     def fresh(backup=None, reference=None):
         attrs = {'mReferenceClock': reference, 'mBackupClock': backup}
-        for n, t, _ in lib.fields(SC):
+        for n, t, node in lib.fields(SC):
             if n not in attrs:
-                attrs[n] = init_vals.get(n, 0) if int_type(t) else None
-        return AObj(attrs, oid='clock', cls=SC, ftypes=ftypes)
+                if int_type(t):
+                    attrs[n] = init_vals.get(n, 0)
+                elif '*' in (t or ''):
+                    attrs[n] = None
+                else:
+                    # a member of class type: the value its initialiser in the class gives it, else a default-made one
+                    ini = [x for x in node.get('inner', []) if 'Comment' not in x.get('kind', '') and 'Attr' not in x.get('kind', '')]
+                    e_ = Lowerer(lib).expr(ini[-1]) if ini else E('init', (t or '').replace('const ', '').strip(), [])
+                    attrs[n] = AEval(module=mod, intrinsics=intr, typed=True, max_steps=20000).ev(e_, {}, 0)
+        o = AObj(attrs, oid='clock', cls=SC, ftypes=ftypes)
+        o.ptrs = frozenset(n for n, t, _ in lib.fields(SC) if t and '*' in t)
+        return o
 
     def call(f, obj, *args):
         try:
@@ -180,14 +211,30 @@ def clock_scenarios(R, lib, ob, init_vals, inv, g, sy, sn):
                 raise
             return 'no result: a loop of %s does not terminate' % f.name.split('::')[-1]
 
+    # ---- R4: the first set of a fresh clock takes effect whatever value it sets (a clock whose seconds start at a value other
+    # than the sentinel takes a first syncNow() of that value for "the second did not change" and stays unset)
+    c_ = SC + '::mEpochSeconds:initial'
+    R.instance('R4', c_, sy.loc, 'initial values %r' % init_vals)
+    try:
+        for T0 in (0, 1, -1, 946684800, 2000000000):
+            clk = fresh()
+            state['m'] = 777
+            call(sy, clk, T0)
+            v = call(g, clk)
+            if v != T0:
+                R.violation('R4', c_, sy.loc, 'a fresh clock (members as their initialisers leave them: %r) is set with syncNow(%d) and then reads %r: the first set '
+                            'looks like "the second did not change" and the clock, although set, keeps reporting the sentinel' % (init_vals, T0, v))
+                break
+    except Raised as r_:
+        raise AnalysisError('%s: interpretation raised %s' % (sy.loc, r_.what))
     # ---- R3: unset clock, sentinel
     clk = fresh()
-    before = dict(clk.attrs)
+    before = freeze(clk)
     state['m'] = 70000
     try:
         v = call(g, clk)
-        ob('R3', g.name + ':not-initialised', g.loc, v == inv and clk.attrs == before,
-           'a clock that was never set reads %r%s, expected the invalid sentinel %d and no change of state' % (v, '' if clk.attrs == before else ' and changes its state', inv))
+        ob('R3', g.name + ':not-initialised', g.loc, v == inv and freeze(clk) == before,
+           'a clock that was never set reads %r%s, expected the invalid sentinel %d and no change of state' % (v, '' if freeze(clk) == before else ' and changes its state', inv))
         bad = None
         for setter in (sy, sn):
             for start in ('unset', 'set'):
@@ -196,19 +243,19 @@ def clock_scenarios(R, lib, ob, init_vals, inv, g, sy, sn):
                     state['m'] = 1000
                     call(sy, clk, 500)
                 state['m'] = 9000
-                before = dict(clk.attrs)
+                before = {k_: freeze(v_) for k_, v_ in clk.attrs.items()}
                 call(setter, clk, inv)
-                if clk.attrs != before:
+                if {k_: freeze(v_) for k_, v_ in clk.attrs.items()} != before:
                     bad = '%s(kInvalidSeconds) on a%s clock changes %s' % (setter.name.split('::')[-1], 'n unset' if start == 'unset' else ' set',
-                                                                          sorted(k for k in before if before[k] != clk.attrs[k]))
+                                                                          sorted(k for k in before if before[k] != freeze(clk.attrs[k])))
         ob('R3', sy.name + ':sentinel', sy.loc, bad is None, bad or '')
         # setNow(T) sets the clock as syncNow(T) does
         a, b = fresh(), fresh()
         state['m'] = 4321
         call(sy, a, 777)
         call(sn, b, 777)
-        ob('R3', sn.name, sn.loc, a.attrs == b.attrs, 'setNow(T) leaves the clock in another state than syncNow(T): %s' %
-           sorted((k, a.attrs[k], b.attrs[k]) for k in a.attrs if a.attrs[k] != b.attrs[k]))
+        ob('R3', sn.name, sn.loc, freeze(a) == freeze(b), 'setNow(T) leaves the clock in another state than syncNow(T): %s' %
+           sorted((k, repr(a.attrs[k]), repr(b.attrs[k])) for k in a.attrs if freeze(a.attrs[k]) != freeze(b.attrs[k])))
     except Raised as r_:
         raise AnalysisError('%s: interpretation raised %s' % (g.loc, r_.what))
     # ---- R1: readings along polling schedules
